@@ -64,9 +64,57 @@ def model_check(wd, tier, mc_stats=None, variants=True):
     return stats, sens, problems
 
 
+V1_VARIANTS = {
+    "set-parent-no-cycle-check": "a crate can be moved under its own descendant (repaired in eab3dfc)",
+    "set-parent-leaves-subtree": "set_parent() moved the crate but not its sub-tree (repaired in a460db3)",
+    "remove-crate-shallow": "sub-crates and all rows referring to the crate stay behind (repaired in 247df43)",
+    "remove-track-shallow": "memberships of a removed track stay behind (repaired in bc46b7a)",
+    "add-track-no-txn": "DELETE and INSERT outside a transaction: a failure between them loses the membership",
+}
+
+
+def consts_v1(variant="current", faults=True, maxc=3, maxt=2, calls=4, names=("a", "b")):
+    return {"ValidNames": set(names), "InvalidNames": {""}, "MaxC": maxc, "MaxT": maxt, "MaxCalls": calls, "Faults": faults,
+            "Variant": variant}
+
+
+def run_v1(wd, tag, c, workers=8, timeout=1500, xmx="12g"):
+    cfg = vlib.cfg_text("Spec", c, invariants=["RowsInv", "NoTxnAtRest", "GhostAgree", "LibInv"], properties=["Refines"])
+    t0 = time.time()
+    rc, outp = vlib.run_tlc("V1Store", cfg, wd, tag, workers=workers, timeout=timeout, xmx=xmx)
+    r = vlib.parse_tlc(outp)
+    r["seconds"] = round(time.time() - t0, 1)
+    r["out"] = outp
+    return r
+
+
+def model_check_v1(wd, tier, mc_stats=None, variants=True):
+    problems, stats = [], []
+    plans = [dict(maxc=3, maxt=2, calls=4 if tier == "quick" else 5)]
+    if tier != "quick":
+        plans.append(dict(maxc=4, maxt=1, calls=5, names=("a",)))
+    for i, kw in enumerate(plans):
+        r = run_v1(wd, "v1store_%d" % i, consts_v1("current", **kw))
+        st = {"instance": "V1Store(%s)" % ",".join("%s=%s" % kv for kv in sorted(kw.items())), "states": r["states"] or 0,
+              "transitions": r["generated"] or 0, "depth": r["depth"], "seconds": r["seconds"], "ok": r["ok"]}
+        stats.append(st)
+        if not r["ok"]:
+            problems.append("V1Store %s: %s (see %s)" % (st["instance"], r["errors"][:2] or r["fatal"], r["out"]))
+    sens = {}
+    for variant in (V1_VARIANTS if variants else ()):
+        r = run_v1(wd, "v1store_" + variant, consts_v1(variant, maxc=3, maxt=2, calls=4), timeout=900)
+        sens[variant] = bool(r["errors"]) and not r["fatal"]
+        if not sens[variant]:
+            problems.append("V1Store variant %s was NOT reported by TLC (model insensitive), see %s" % (variant, r["out"]))
+    if mc_stats is not None:
+        mc_stats.extend(stats)
+    return stats, sens, problems
+
+
 if __name__ == "__main__":
     wd = vlib.workdir("mcv2store")
-    stats, sens, problems = model_check(wd, sys.argv[1] if len(sys.argv) > 1 else "quick")
+    fn = model_check_v1 if len(sys.argv) > 2 and sys.argv[2] == "v1" else model_check
+    stats, sens, problems = fn(wd, sys.argv[1] if len(sys.argv) > 1 else "quick")
     for s in stats:
         print(s)
     print(sens)
